@@ -1,13 +1,16 @@
 """C17 — a check's description says what was actually verified (model M12: `describe` / `describeSt`)."""
 import collections
+import copy
 
 import common as C
 from gen import matchers as G
 
 PROPERTY = "C17"
-LEAN_MODULES = ["LccModel.Props.C17", "LccModel.Props.C17Seq", "LccModel.Model.MatcherObjJson", "LccModel.Proto"]   # the last two: what drivers/C17.lean imports
-PROPS_FILES = ["LccModel/Props/C17.lean", "LccModel/Props/C17Seq.lean"]
-NAMESPACES = {"LccModel/Props/C17.lean": "LccModel.C17", "LccModel/Props/C17Seq.lean": "LccModel.C17Seq"}
+LEAN_MODULES = ["LccModel.Props.C17", "LccModel.Props.C17Seq", "LccModel.Props.C17Values", "LccModel.Model.MatcherObjJson", "LccModel.Model.MatcherXValJson",
+                "LccModel.Proto"]   # the last two: what drivers/C17.lean imports
+PROPS_FILES = ["LccModel/Props/C17.lean", "LccModel/Props/C17Seq.lean", "LccModel/Props/C17Values.lean"]
+NAMESPACES = {"LccModel/Props/C17.lean": "LccModel.C17", "LccModel/Props/C17Seq.lean": "LccModel.C17Seq",
+              "LccModel/Props/C17Values.lean": "LccModel.C17Values"}
 DRIVER = "drivers/C17.lean"
 TRUSTED_BASE = [
     "Lean 4.33.0 kernel; axioms of the property theorems ⊆ {propext, Classical.choice, Quot.sound}",
@@ -113,6 +116,56 @@ def has_nonstr_dict_key(e):
     return G.key_feature(G.literals_of(e)) is not None
 
 
+def has_container_nan(e):
+    """an expected value that CONTAINS a NaN (a list / dict around it, or the list argument of has_items / has_only_items /
+    is_in): Python's own containers compare and search their items with an identity shortcut, so `[x] == [x]` and `x in [x]`
+    hold for a NaN object x although `x == x` does not"""
+    if G.has_nested_nan(G.literals_of(e)):
+        return True
+    e = _strip_is(e)
+    if e[0] in G.LIST_LEAVES and G.has_nan(e[1]):
+        return True
+    return any(has_container_nan(s) for s in G.sub_exprs(e))
+
+
+def has_pattern_flags(e):
+    e = _strip_is(e)
+    if e[0] == "match_pattern":
+        return True
+    return any(has_pattern_flags(s) for s in G.sub_exprs(e))
+
+
+def _unwrapped(e):
+    while e[0] in ("is_", "hide", "not_"):
+        e = e[1]
+    return e
+
+
+def has_wrapped_composite_in_composite(e):
+    """a composite one of whose children is a composite (>= 2 children) behind hide_result_details() / not_(): the code forces the
+    itemised rendering only for children that ARE AllOf / AnyOf objects, so the inner composite is written on the parent's line
+    and "a or b and c" no longer tells any_of(a, all_of(b, c)) from all_of(any_of(a, b), c)"""
+    e = _strip_is(e)
+    if e[0] in ("all_of", "any_of"):
+        for ch in e[1]:
+            ch = _strip_is(ch)
+            if ch[0] in ("hide", "not_"):
+                inner = _unwrapped(ch)
+                if inner[0] in ("all_of", "any_of") and len(inner[1]) >= 2:
+                    return True
+    return any(has_wrapped_composite_in_composite(s) for s in G.sub_exprs(e))
+
+
+def has_tuple_value(e):
+    return any(_has_tuple(v) for v in G.literals_of(e))
+
+
+def _has_tuple(v):
+    if isinstance(v, list) and len(v) == 2 and v[0] == "tuple":
+        return True
+    return isinstance(v, list) and any(_has_tuple(x) for x in v)
+
+
 CLAUSE_HOSTS_1 = ("has_item", "has_all_items", "has_length")     # [constructor, sub-matcher]
 CLAUSE_HOSTS_2 = ("has_entry", "is_type")                         # [constructor, key path / type, sub-matcher]
 
@@ -146,6 +199,10 @@ SIG_QUOTE = "C17/string-argument-not-escaped-forges-wording"
 SIG_KEYTYPE = "C17/dict-key-type-lost-in-wording"
 SIG_NOTCOMP = "C17/not-over-composite-equals-composite-of-nots"
 SIG_COLLISION = "C17/same-description-different-accepted-values"
+SIG_NAN_NESTED = "C17/nan-inside-container-identity-shortcut"
+SIG_TUPLE = "C17/tuple-worded-like-list"
+SIG_FLAGS = "C17/pattern-flags-lost-in-wording"
+SIG_WRAPPED = "C17/wrapped-composite-on-one-line-ambiguous"
 SIG_SIBLING = "C17/sibling-dependent-wording"
 SIG_NEG_INVISIBLE = "C17/negation-invisible-in-wording"
 SIG_NEG_TOGGLE = "C17/not-does-not-toggle-wording"
@@ -296,6 +353,10 @@ class Describe(C.Stream):
                 f.append("near-100-chars")
         cs = G.constructors_of(case["expr"])
         f += ["c:" + c for c in sorted(cs)]
+        if G.has_nan(case["expr"]):
+            f.append("nan-value")
+            if G.has_nested_nan(G.literals_of(case["expr"])):
+                f.append("nan-inside-container")
         return f
 
     def shrink(self, case):
@@ -322,11 +383,36 @@ ALPHABETS = {
         "unary": [["not_"], ["has_item"], ["has_all_items"], ["has_length"], ["has_entry", ["k"]], ["is_type", "int"], ["is_type", "list"]],
     },
 }
+_NAN_LEAVES = [["equal_to", ["nan", src]] for src in G.NAN_SOURCES]
+# values that are not equal to themselves, taken from every source (shared objects and new ones): "identity must not matter"
+ALPHABETS["N"] = {
+    "leaves": _NAN_LEAVES + [["not_equal_to", ["nan", "math"]], ["not_equal_to", ["nan", "new"]], ["equal_to", ["f", 3]], ["greater_than", ["i", 0]],
+                             ["less_than", ["nan", "math"]], ["less_than", ["nan", "calc"]]],
+    "unary": [["not_"], ["has_item"], ["has_all_items"], ["has_entry", ["k"]], ["is_type", "float"]],
+}
+# the same with NaNs INSIDE containers (open finding D42: Python's containers take an identity shortcut)
+ALPHABETS["NC"] = {
+    "leaves": _NAN_LEAVES[:2] + [["equal_to", ["l", [["nan", "math"]]]], ["equal_to", ["l", [["nan", "new"]]]], ["equal_to", ["d", [["r", ["nan", "json"]]]]],
+                                 ["equal_to", ["d", [["r", ["nan", "calc"]]]]], ["is_in", [["nan", "math"]]], ["is_in", [["nan", "new"]]], ["equal_to", ["f", 3]]],
+    "unary": [["not_"], ["has_item"], ["has_entry", ["k"]]],
+}
+# expected values of classes json.dumps cannot write natively, next to the matchers built on their str() text and on look-alikes:
+# outside the model's value universe (oracle only)
+ALPHABETS["X"] = {
+    "leaves": [["equal_to", ["x", n]] for n in G.FOREIGN] + [["equal_to", ["s", G.foreign_text(n)]] for n in G.FOREIGN] +
+              [["equal_to", ["l", [["x", "date"]]]], ["equal_to", ["l", [["s", G.foreign_text("date")]]]], ["equal_to", ["d", [["r", ["x", "uuid"]]]]],
+               ["equal_to", ["d", [["r", ["s", G.foreign_text("uuid")]]]]], ["equal_to", ["f", 3]], ["equal_to", ["i", 1]], ["not_equal_to", ["x", "decimal"]],
+               ["not_equal_to", ["s", G.foreign_text("decimal")]], ["greater_than", ["x", "date"]], ["greater_than", ["s", G.foreign_text("date")]],
+               ["is_in", [["x", "bytes"]]], ["is_in", [["s", G.foreign_text("bytes")]]],
+               ["equal_to", ["tuple", [["i", 1], ["i", 2]]]], ["equal_to", ["l", [["i", 1], ["i", 2]]]]],
+    "unary": [["not_"], ["has_item"], ["has_entry", ["k"]], ["has_all_items"]],
+}
 # separates the leaves of both alphabets and what the unary constructors make of them
 DOMAIN = [None, True, ["i", 0], ["i", 1], ["i", 2], ["f", 3], ["s", "a"], ["s", "ab"], ["s", "b"], ["l", []], ["l", [["i", 1]]],
           ["l", [["i", 1], ["s", "a"]]], ["l", [["s", "a"]]], ["l", [None]], ["l", [["l", [["i", 1]]]]], ["l", [["i", 0], ["i", 2]]],
           ["d", [["k", ["i", 1]]]], ["d", [["k", ["s", "a"]]]], ["d", [["k", None]]], ["d", [["k", ["l", [["i", 1]]]]]], ["d", []],
-          ["d", [["k", ["i", 0]]]], ["l", [["d", [["k", ["i", 1]]]]]], ["d", [[["i", 1], ["s", "a"]]]], ["d", [["1", ["s", "a"]]]]]
+          ["d", [["k", ["i", 0]]]], ["l", [["d", [["k", ["i", 1]]]]]], ["d", [[["i", 1], ["s", "a"]]]], ["d", [["1", ["s", "a"]]]],
+          ["nan", "new"], ["l", [["nan", "new"]]], ["d", [["k", ["nan", "new"]]]]]
 
 
 def _apply_unary(u, e):
@@ -361,13 +447,39 @@ def enumerate_exprs(alphabet, depth):
 _PYDOMAIN = None
 
 
-def accepted_set(m):
-    """which values of DOMAIN the real matcher accepts (an exception is not an acceptance)"""
+_PRIMITIVES = (type(None), bool, int, float, str)
+IDENTITY_CAP = 90
+
+
+def identity_domain(made):
+    """The OBJECTS the matchers of a pool were built on, as actual values: a matcher must not behave differently because the value
+    it is given happens to be the very object it was built with (same sentence => same accepted values, whichever objects).
+    Every object handed to a constructor of the pool; self-equal primitives once per (type, value); containers also as a shallow
+    copy (another container around the SAME items); every object also inside a new list and under the key "k" (for has_item /
+    has_all_items / has_entry hosts)"""
+    out, seen = [], set()
+    for x in made:
+        if isinstance(x, _PRIMITIVES) and x == x:
+            key = (type(x).__name__, x)
+            if key in seen:
+                continue
+            seen.add(key)
+        out.append(x)
+        if isinstance(x, (list, dict)):
+            out.append(copy.copy(x))
+        if len(out) >= IDENTITY_CAP:
+            break
+    return out + [[x] for x in out[:IDENTITY_CAP // 3]] + [{"k": x} for x in out[:IDENTITY_CAP // 3]]
+
+
+def accepted_set(m, extra=()):
+    """which values of DOMAIN (then of `extra`, the identity domain of the pool) the real matcher accepts (an exception is not an
+    acceptance)"""
     global _PYDOMAIN
     if _PYDOMAIN is None:
         _PYDOMAIN = [G.to_py(v) for v in DOMAIN]
     bits = []
-    for v in _PYDOMAIN:
+    for v in list(_PYDOMAIN) + list(extra):
         try:
             bits.append("1" if m.matches(v).is_successful is True else "0")
         except Exception:  # noqa: BLE001 - an exception is not an acceptance
@@ -397,6 +509,10 @@ def variants(e):
         out.append([e[0], list(reversed(e[1]))])
         if len(e[1]) >= 2:
             out.append([e[0], [e[1][0], [e[0], e[1][1:]]]])
+        if len(e[1]) >= 3:
+            # the two groupings of "x <rel> y <other> z" with the inner composite behind hide_result_details()
+            out.append([e[0], [e[1][0], ["hide", [other, e[1][1:]]]]])
+            out.append([other, [["hide", [e[0], e[1][:-1]]], e[1][-1]]])
     elif e[0] == "not_":
         out.append(e[1])
         out.append(["not_", e])
@@ -433,6 +549,25 @@ class Inject(C.Stream):
         {"mode": "pool", "exprs": [["any_of", [["starts_with", "a"], ["starts_with", "b"]]], ["starts_with", 'a" or to start with "b']]},
         # D33 (open): a dict key that is not a str is written like the str of its JSON rendering: {1: "a"} reads like {"1": "a"}
         {"mode": "pool", "exprs": [["equal_to", ["d", [[["i", 1], ["s", "a"]]]]], ["equal_to", ["d", [["1", ["s", "a"]]]]]]},
+        # values that are not equal to themselves, from every source (shared object / new object), positive and negated: whichever
+        # NaN OBJECT a matcher was built on, it accepts the same values — the objects themselves are in the identity domain
+        {"mode": "pool", "exprs": [["equal_to", ["nan", src]] for src in G.NAN_SOURCES] + [["not_", ["equal_to", ["nan", src]]] for src in G.NAN_SOURCES] +
+                                  [["has_item", ["equal_to", ["nan", "math"]]], ["has_item", ["equal_to", ["nan", "new"]]],
+                                   ["has_entry", ["k"], ["val", ["nan", "json"]]], ["has_entry", ["k"], ["val", ["nan", "calc"]]]]},
+        # D42 (open): a NaN INSIDE an expected container: Python's containers compare identical items without asking ==
+        {"mode": "pool", "exprs": [["equal_to", ["d", [["r", ["nan", "math"]]]]], ["equal_to", ["d", [["r", ["nan", "new"]]]]]]},
+        # D43 (open): a tuple is worded like the list, which is not equal to it
+        {"mode": "pool", "exprs": [["equal_to", ["tuple", [["i", 1], ["i", 2]]]], ["equal_to", ["l", [["i", 1], ["i", 2]]]]]},
+        # expected values json.dumps cannot write: no sentence at all (TypeError) — never the sentence of the matcher built on str(value)
+        {"mode": "pool", "exprs": [x for n in G.FOREIGN for x in (["equal_to", ["x", n]], ["equal_to", ["s", G.foreign_text(n)]])] +
+                                  [["not_", ["equal_to", ["x", "date"]]], ["not_", ["equal_to", ["s", G.foreign_text("date")]]],
+                                   ["has_entry", ["k"], ["val", ["x", "uuid"]]], ["has_entry", ["k"], ["val", ["s", G.foreign_text("uuid")]]]]},
+        # D44 (open): the flags of a compiled pattern are not in the sentence
+        {"mode": "pool", "exprs": [["match_pattern", "ab", None], ["match_pattern", "ab", 0], ["match_pattern", "ab", 2], ["match_pattern", "ab$", 8],
+                                  ["match_pattern", "ab$", None]]},
+        # D45 (open): a composite behind hide_result_details() is written on its parent's line: "a or b and c" is ambiguous
+        {"mode": "pool", "exprs": [["any_of", [_a, ["hide", ["all_of", [_b, ["is_none"]]]]]], ["all_of", [["hide", ["any_of", [_a, _b]]], ["is_none"]]],
+                                  ["any_of", [_a, ["all_of", [_b, ["is_none"]]]]]]},
         # D12 / D13 (fixed)
         {"mode": "pool", "exprs": [["all_of", [["not_", _a], _b]], ["all_of", [["not_", _a], ["not_", _b]]]]},
         {"mode": "pool", "exprs": [["not_", ["not_", _a]], ["not_", _a]]},
@@ -456,7 +591,7 @@ class Inject(C.Stream):
         return es if case["mode"] == "exh-all" else es[case["lo"]:case["hi"]]
 
     def gen(self, rng, i):
-        alpha = ALPHABETS[rng.choice(["S", "L", "L"])]
+        alpha = ALPHABETS[rng.choice(["S", "L", "L", "N", "N", "NC", "X"])]
         pool = []
         for _ in range(rng.choice([15, 25, 40])):
             e = gen_pool_expr(rng, alpha, rng.choice([1, 2, 2, 3]))
@@ -479,16 +614,25 @@ class Inject(C.Stream):
         exprs = self._exprs(case)
         groups = collections.OrderedDict()
         descs = []
-        for k, e in enumerate(exprs):
-            m = G.to_matcher(e)
-            d = m.build_description(MatcherDescriptionTransformer())
+        env = G.Env([], made=([] if case["mode"] == "pool" else None))
+        matchers = [G.to_matcher(e, env=env) for e in exprs]
+        extra = identity_domain(env.made) if env.made else []
+        n_raise = 0
+        for k, (e, m) in enumerate(zip(exprs, matchers)):
+            try:
+                d = m.build_description(MatcherDescriptionTransformer())
+            except Exception as ex:  # noqa: BLE001 - no sentence at all: nothing is said, so nothing wrong is said
+                descs.append({"error": type(ex).__name__})
+                n_raise += 1
+                continue
             descs.append(d)
-            groups.setdefault(d, []).append((k, accepted_set(m)))
+            groups.setdefault(d, []).append((k, accepted_set(m, extra)))
         collisions = []
         for d, members in groups.items():
             if len({a for _, a in members}) > 1:
                 collisions.append({"description": d, "members": [{"expr": exprs[k], "accepts": a} for k, a in members[:12]]})
-        obs = {"n": len(exprs), "distinct_descriptions": len(groups), "collisions": collisions[:200], "n_collisions": len(collisions)}
+        obs = {"n": len(exprs), "distinct_descriptions": len(groups), "collisions": collisions[:200], "n_collisions": len(collisions),
+               "identity_domain": len(extra), "no_sentence": n_raise}
         if case["mode"] != "exh-all":
             obs["descs"] = descs
         return obs
@@ -499,11 +643,23 @@ class Inject(C.Stream):
             clean = [m for m in col["members"] if not has_empty_composite(m["expr"]) and not has_not_over_composite(m["expr"])]
             plain = [m for m in clean if not has_unescaped_quote_argument(m["expr"])]
             strkeys = [m for m in plain if not has_nonstr_dict_key(m["expr"])]
-            hosts = [m for m in strkeys if is_clause_over_composite(m["expr"])]
+            unwrapped = [m for m in strkeys if not has_wrapped_composite_in_composite(m["expr"]) and not has_pattern_flags(m["expr"])]
+            noflags = [m for m in strkeys if not has_pattern_flags(m["expr"])]
+            lists = [m for m in unwrapped if not has_tuple_value(m["expr"])]
+            flat = [m for m in lists if not has_container_nan(m["expr"])]
+            hosts = [m for m in flat if is_clause_over_composite(m["expr"])]
             if len({m["accepts"] for m in hosts}) > 1:
                 sig, members = SIG_CLAUSE_COLLISION, hosts
+            elif len({m["accepts"] for m in flat}) > 1:
+                sig, members = SIG_COLLISION, flat
+            elif len({m["accepts"] for m in lists}) > 1:
+                sig, members = SIG_NAN_NESTED, lists
+            elif len({m["accepts"] for m in unwrapped}) > 1:
+                sig, members = SIG_TUPLE, unwrapped
+            elif len({m["accepts"] for m in noflags}) > 1:
+                sig, members = SIG_WRAPPED, noflags
             elif len({m["accepts"] for m in strkeys}) > 1:
-                sig, members = SIG_COLLISION, strkeys
+                sig, members = SIG_FLAGS, strkeys
             elif len({m["accepts"] for m in plain}) > 1:
                 sig, members = SIG_KEYTYPE, plain
             elif len({m["accepts"] for m in clean}) > 1:
@@ -516,7 +672,8 @@ class Inject(C.Stream):
                 continue
             seen.add(sig)
             a = members[0]
-            b = next(m for m in members if m["accepts"] != a["accepts"]) if sig in (SIG_COLLISION, SIG_QUOTE, SIG_CLAUSE_COLLISION, SIG_KEYTYPE) else \
+            b = next(m for m in members if m["accepts"] != a["accepts"]) if sig in (SIG_COLLISION, SIG_QUOTE, SIG_CLAUSE_COLLISION, SIG_KEYTYPE,
+                                                                                    SIG_NAN_NESTED, SIG_TUPLE, SIG_WRAPPED, SIG_FLAGS) else \
                 next(m for m in col["members"] if m["accepts"] != a["accepts"])
             fails.append(C.Failure(sig, f"{a['expr']} and {b['expr']} are both described as {col['description']!r} but accept "
                                         f"different values of the separating domain ({a['accepts']} / {b['accepts']})",
@@ -524,8 +681,8 @@ class Inject(C.Stream):
         return fails
 
     def request(self, case, obs):
-        if case["mode"] == "exh-all":
-            return None
+        if case["mode"] == "exh-all" or G.has_foreign(self._exprs(case)):
+            return None            # values outside the model's universe: the oracle alone decides
         return {"exprs": self._exprs(case)}
 
     def compare(self, case, obs, ans):
@@ -543,6 +700,23 @@ class Inject(C.Stream):
 
     def features(self, case, obs):
         f = [case["mode"], "collisions" if obs["n_collisions"] else "no-collision"]
+        if case["mode"] == "pool":
+            es = case["exprs"]
+            srcs = {v[1] for e in es for v in G.literals_of(e) if G.is_nan_val(v)}
+            if srcs:
+                f.append("nan-expected")
+                if len(srcs) >= 2:
+                    f.append("nan-from-several-sources")
+                if srcs & set(G.NAN_SHARED):
+                    f.append("nan-shared-object")
+            if any(has_container_nan(e) for e in es):
+                f.append("nan-inside-container")
+            if G.has_foreign(es):
+                f.append("non-json-expected-value")
+            if obs.get("no_sentence"):
+                f.append("description-raises")
+            if obs.get("identity_domain"):
+                f.append("identity-domain")
         if case["mode"] != "pool":
             f.append("exhaustive:%s/depth<=%d" % (case["alphabet"], case["depth"]))
         n = obs["n"]
@@ -568,6 +742,206 @@ class Inject(C.Stream):
                 yield {"mode": "pool", "exprs": es[:i] + [t] + es[i + 1:]}
 
 
+# ------------------------------------------------------------------------------------------------
+# the expected value in the sentence: helpers/text.py:jsonify on values of ANY class
+# ------------------------------------------------------------------------------------------------
+
+SIG_WRITTEN_ALIKE = "C17/expected-values-written-alike-but-not-interchangeable"
+LOOKALIKES = ["NaN", "null", "true", "1", "1.5", "[1, 2]", "{}", '{"r": 1}', "nan"]
+_OPS = {None: "equal_to", "ne": "not_equal_to", "lt": "less_than", "le": "less_than_or_equal_to", "gt": "greater_than",
+        "ge": "greater_than_or_equal_to"}
+
+
+def _to_model_val(v):
+    """harness syntax -> the syntax drivers/C17.lean parses: a foreign value travels as (class number, str() text)"""
+    if isinstance(v, list) and len(v) == 2 and v[0] == "x":
+        return ["x", G.FOREIGN.index(v[1]), G.foreign_text(v[1])]
+    if isinstance(v, list) and len(v) == 2 and v[0] == "l":
+        return ["l", [_to_model_val(x) for x in v[1]]]
+    if isinstance(v, list) and len(v) == 2 and v[0] == "d":
+        return ["d", [[k, _to_model_val(x)] for k, x in v[1]]]
+    return v
+
+
+def gen_xval(rng, depth=2):
+    r = rng.random()
+    if r < 0.3:
+        return ["x", rng.choice(G.FOREIGN)]
+    if r < 0.45:
+        return ["s", G.foreign_text(rng.choice(G.FOREIGN)) if rng.random() < 0.7 else rng.choice(LOOKALIKES)]
+    if r < 0.55:
+        return ["nan", rng.choice(G.NAN_SOURCES)]
+    if depth <= 0 or r < 0.7:
+        return G.gen_scalar(rng)
+    if r < 0.85:
+        return ["l", [G.fresh_nans(gen_xval(rng, depth - 1)) for _ in range(rng.choice([0, 1, 1, 2, 3]))]]
+    keys = G.gen_keys(rng, rng.choice([1, 1, 2]))
+    return ["d", [[k, G.fresh_nans(gen_xval(rng, depth - 1))] for k in keys]]
+
+
+def _str_twin(v):
+    """the value with every foreign object replaced by the str of its str() text (what `default=str` would write)"""
+    if isinstance(v, list) and len(v) == 2 and v[0] == "x":
+        return ["s", G.foreign_text(v[1])]
+    if isinstance(v, list) and len(v) == 2 and v[0] == "l":
+        return ["l", [_str_twin(x) for x in v[1]]]
+    if isinstance(v, list) and len(v) == 2 and v[0] == "d":
+        return ["d", [[k, _str_twin(x)] for k, x in v[1]]]
+    return v
+
+
+class Jsonify(C.Stream):
+    """expected values of any class (JSON-native, NaN, foreign objects, nested) -> the text `jsonify` writes into the sentence (or
+    the exception), the sentence of equal_to / a comparator built on them; values written alike must be interchangeable"""
+    name = "C17.jsonify"
+    quick_cases = 1500
+    thorough_cases = 20000
+    quick_seconds = 12
+    thorough_seconds = 120
+    chunk = 100
+    corpus = [
+        {"vals": [["x", "date"], ["s", "2020-01-02"]], "op": None, "tr": [False, False]},
+        {"vals": [["x", n] for n in G.FOREIGN] + [["s", G.foreign_text(n)] for n in G.FOREIGN], "op": None, "tr": [False, False]},
+        {"vals": [["l", [["x", "uuid"]]], ["l", [["s", G.foreign_text("uuid")]]], ["d", [["r", ["x", "decimal"]]]], ["d", [["r", ["s", "1.50"]]]]],
+         "op": "ne", "tr": [True, True]},
+        {"vals": [["nan", "math"], ["nan", "new"], ["nan", "json"], ["nan", "calc"], ["s", "NaN"]], "op": None, "tr": [False, False]},
+        {"vals": [["l", [["nan", "math"]]], ["l", [["nan", "new"]]]], "op": None, "tr": [False, False]},                # D42
+        {"vals": [["d", [[["i", 1], ["s", "a"]]]], ["d", [["1", ["s", "a"]]]]], "op": None, "tr": [False, False]},   # D33
+    ]
+
+    def gen(self, rng, i):
+        vals = []
+        for _ in range(rng.choice([1, 2, 2, 3])):
+            v = gen_xval(rng, rng.choice([0, 1, 2]))
+            vals.append(v)
+            if G.has_foreign(v) and rng.random() < 0.7:
+                vals.append(_str_twin(v))
+            if G.has_nan(v) and rng.random() < 0.5:
+                vals.append(v if G.has_nested_nan(v) or v[1] in G.NAN_SHARED else ["nan", rng.choice(G.NAN_SOURCES)])
+        tr = [False, False] if rng.random() < 0.5 else [rng.random() < 0.5, rng.random() < 0.5]
+        return {"vals": vals, "op": rng.choice([None, None, "ne", "lt", "le", "gt", "ge"]), "tr": tr}
+
+    def impl(self, case):
+        import lemoncheesecake.matching as M
+        from lemoncheesecake.helpers.text import jsonify
+
+        objs = [G.to_py(v) for v in case["vals"]]
+        out, sentences = [], []
+        for x in objs:
+            try:
+                out.append(jsonify(x))
+            except Exception as ex:  # noqa: BLE001 - classified
+                out.append({"error": type(ex).__name__})
+            try:
+                sentences.append(getattr(M, _OPS[case["op"]])(x).build_description(_T(case["tr"])))
+            except Exception as ex:  # noqa: BLE001 - classified
+                sentences.append({"error": type(ex).__name__})
+        # which values are == to each expected value (Python's operator only), over the objects of the case themselves, a copy of
+        # each made of new objects, and the separating domain of C17.inject
+        global _PYDOMAIN
+        if _PYDOMAIN is None:
+            _PYDOMAIN = [G.to_py(v) for v in DOMAIN]
+        dom = list(objs) + [G.to_py(v) for v in case["vals"]] + list(_PYDOMAIN)
+
+        def eq_set(x):
+            bits = []
+            for d in dom:
+                try:
+                    bits.append("1" if d == x else "0")
+                except Exception:  # noqa: BLE001
+                    bits.append("0")
+            return "".join(bits)
+
+        return {"out": out, "sentences": sentences, "equal_to": [eq_set(x) for x in objs]}
+
+    def oracle(self, case, obs):
+        fails, seen = [], set()
+        vals = case["vals"]
+        for i in range(len(vals)):
+            for j in range(i + 1, len(vals)):
+                a, b = obs["sentences"][i], obs["sentences"][j]
+                if not (isinstance(a, str) and a == b) or obs["equal_to"][i] == obs["equal_to"][j]:
+                    continue
+                pair = [vals[i], vals[j]]
+                if G.key_feature(pair) is not None and G.key_feature([_strkeys(vals[i])]) is None and _strkeys(vals[i]) == _strkeys(vals[j]):
+                    sig = SIG_KEYTYPE
+                elif G.has_nested_nan(pair) and G.without_nans(vals[i]) == G.without_nans(vals[j]):
+                    sig = SIG_NAN_NESTED
+                else:
+                    sig = SIG_WRITTEN_ALIKE
+                if sig in seen:
+                    continue
+                seen.add(sig)
+                fails.append(C.Failure(sig, f"the expected values {vals[i]} and {vals[j]} are both written {a!r}, but they are not equal to the "
+                                            f"same values ({obs['equal_to'][i]} / {obs['equal_to'][j]})"))
+        return fails
+
+    def request(self, case, obs):
+        return {"xvals": [_to_model_val(v) for v in case["vals"]], "op": case["op"],
+                "tr": {"conjugate": case["tr"][0], "negative": case["tr"][1]}}
+
+    def compare(self, case, obs, ans):
+        if "out" not in ans:
+            return "model error: " + str(ans.get("error"))
+        for what, key in (("out", "jsonify"), ("sentences", "sentence")):
+            for k, (m, o) in enumerate(zip(ans[what], obs[what])):
+                mm = m["json"] if "json" in m else {"error": m["error"]}
+                if mm != o:
+                    return f"{key} of {case['vals'][k]}: model {mm!r} vs implementation {o!r}"
+        return None
+
+    def nontrivial(self, case, obs):
+        return len(case["vals"]) >= 2
+
+    def features(self, case, obs):
+        f = ["op=%s" % case["op"], "tr=%d%d" % tuple(case["tr"])]
+        vs = case["vals"]
+        if any(G.has_foreign(v) for v in vs):
+            f.append("foreign-class")
+            if any(G.has_foreign(v) and v[0] in ("l", "d") for v in vs):
+                f.append("foreign-nested")
+            f += ["x:" + n for n in G.FOREIGN if any(_mentions(v, n) for v in vs)]
+        if any(G.has_nan(v) for v in vs):
+            f.append("nan")
+        if any(isinstance(o, dict) for o in obs["out"]):
+            f.append("jsonify-raises")
+        ss = [s for s in obs["sentences"] if isinstance(s, str)]
+        if len(ss) != len(set(ss)):
+            f.append("two-values-one-sentence")
+        return f
+
+    def shrink(self, case):
+        vs = case["vals"]
+        for i in range(len(vs)):
+            if len(vs) > 1:
+                yield dict(case, vals=vs[:i] + vs[i + 1:])
+        for i, v in enumerate(vs):
+            if isinstance(v, list) and len(v) == 2 and v[0] in ("l", "d"):
+                items = v[1] if v[0] == "l" else [x for _, x in v[1]]
+                for x in items:
+                    yield dict(case, vals=vs[:i] + [x] + vs[i + 1:])
+        if case["op"] is not None:
+            yield dict(case, op=None)
+        if case["tr"] != [False, False]:
+            yield dict(case, tr=[False, False])
+
+
+def _mentions(v, name):
+    if isinstance(v, list) and len(v) == 2 and v[0] == "x":
+        return v[1] == name
+    return isinstance(v, list) and any(_mentions(x, name) for x in v)
+
+
+def _strkeys(v):
+    """the value with every dict key replaced by the text json.dumps writes for it"""
+    import json as _json
+    if isinstance(v, list) and len(v) == 2 and v[0] == "d":
+        return ["d", [[k if isinstance(k, str) else _json.dumps(G.key_to_py(k)), _strkeys(x)] for k, x in v[1]]]
+    if isinstance(v, list) and len(v) == 2 and v[0] == "l":
+        return ["l", [_strkeys(x) for x in v[1]]]
+    return v
+
+
 def streams(ctx):
     from props._matcherseq import Seq
-    return [Describe(), Inject(ctx.tier), Seq()]
+    return [Describe(), Inject(ctx.tier), Seq(), Jsonify()]
